@@ -7,6 +7,14 @@ CLAIMED = {
  "C03": ("bounded model checking of namespace histories: for every history of <=2 (quick) / <=3 (thorough) operations on a document and its bundle, with symbolic prefixes, URIs and local names, z3 shows assertions (a),(b),(c) hold on every execution path of the real NamespaceManager code; four genuine defects are listed as known findings with narrow regions", "4/C03",
          "bounds: history length, string lengths (|prefix|<=3,|uri|<=3..4,|local|<=2); validity assumptions on names listed in evidence; hash-order of sets not modelled"),
 }
+CLAIMED.update({
+ "C18": ("bounded model checking: for every container built by <=3 (quick) / <=4 (thorough) record insertions through each of 8 insertion paths, with symbolic identifiers (all aliasing patterns) and 6 spellings of the query name, z3 shows get_record/get_records/records agree with a scan of the record list on every path of the real code", "4/C18",
+         "bounds: record count, |local|<=2, menus of record kinds/spellings per position (evidence lists them); set/hash order not modelled"),
+ "C08": ("bounded model checking of unified(): all documents of <=3 top-level records / bundle of <=2 from 10 record shapes with symbolic identifiers and values; z3 decides exception-iff-conflict, one record per (identifier, kind), union of attributes, order, idempotence, source unchanged on every path", "4/C08",
+         "bounds: record counts, shapes, |local|<=2; datetimes from a catalogue; two defects found were repaired (fix: commits)"),
+ "C04": ("bounded model checking of ==: for all pairs (and triples) of documents in bounds z3 shows d1==d2, d2==d1, != and record/bundle equality coincide with an independent set-based content equivalence; content-preserving transformations give equal documents; hash agreement checked on every replayed witness", "4/C04",
+         "bounds: <=2 (quick) / <=3 records per side, bundles of <=1/2 records; ints unbounded symbolic; stub: str(record) for logger.debug"),
+})
 NA = {}
 props = [json.loads(l) for l in open(os.path.join(V, "properties.jsonl"))]
 checks = []
